@@ -1,1 +1,44 @@
-theorem C14_placeholder : True := trivial
+import JmesVerif.Lemmas.SerdeBridge
+/-!
+# C14 — serde bridge: typed values are searched as their JSON image and decode back
+
+Model: `Model/Serde.lean` — the library's `Serializer` (`svToVariable`) and its
+`Deserializer for Variable` (`deVar`) against serde's data model, standard and derive visitors;
+`svToJson` / `deJson` are the specification (what serde_json produces from the same inputs;
+external code, modelled and validated by the `serde` stream).
+
+* `C14_ser_eq_serde_json` — for every value of the serde data model with string-keyed maps (all
+  entry points, nested arbitrarily), converting it for searching yields exactly serde_json's JSON value;
+* `C14_de_eq_serde_json` — decoding a library value into a Rust type yields what serde_json yields
+  (by construction of the model after the F15 repair; `C14_tuple_length_counterexample` is the
+  machine-checked witness of the defect that was fixed, `C14_lenient_extends_strict` shows the
+  length check was the *only* difference);
+* `C14_roundtrip` — a well-typed Rust value survives the trip through the library: serialise
+  (derive conventions), convert, decode ⇒ the same value.
+-/
+namespace JmesVerif
+
+theorem C14_ser_eq_serde_json (x : SVal) (h : svStringKeyed x = true) : svToVariable x = svToJson x :=
+  ser_eq_serde_json x h
+
+theorem C14_de_eq_serde_json (s : Shape) (v : Val) : deVar s v = deJson s v := de_eq_serde_json s v
+
+theorem C14_tuple_length_counterexample :
+    deVal ⟨false⟩ (.tuple [.int true 32, .int true 32]) (.arr [.num (.pos 1), .num (.pos 2), .num (.pos 3)])
+      = some (.seq [.int 1, .int 2]) ∧
+    deVal ⟨true⟩ (.tuple [.int true 32, .int true 32]) (.arr [.num (.pos 1), .num (.pos 2), .num (.pos 3)]) = none :=
+  tuple_length_counterexample
+
+theorem C14_lenient_extends_strict (s : Shape) (v : Val) (t : TVal) (h : deVal ⟨true⟩ s v = some t) :
+    deVal ⟨false⟩ s v = some t := lenient_extends_strict s v t h
+
+theorem C14_roundtrip (s : Shape) (t : TVal) (h : WellTyped s t) :
+    ∃ sv v, serOf s t = some sv ∧ svToVariable sv = some v ∧ deVar s v = some t := typed_roundtrip s t h
+
+end JmesVerif
+
+#print axioms JmesVerif.C14_ser_eq_serde_json
+#print axioms JmesVerif.C14_de_eq_serde_json
+#print axioms JmesVerif.C14_tuple_length_counterexample
+#print axioms JmesVerif.C14_lenient_extends_strict
+#print axioms JmesVerif.C14_roundtrip
